@@ -117,7 +117,7 @@ func c03R1R2(a *A, r *Roles) {
 		fmt.Sprintf("the constructor stores parameter %d into NowPosition and %d into NextPosition (labels swapped or not stored)", nowIdx, nextIdx))
 	evIdx, okE := paramOf["Events"]
 	if okE {
-		a.check(evIdx >= 0 && types.Identical(ctor.Params[evIdx].Type(), r.Tran.Alloc.Type().(*types.Pointer).Elem()), rule, "ctor-field@"+ctor.Name()+"[Events]", w.pos(ctor.Pos()),
+		a.check(evIdx >= 0 && types.Identical(ctor.Params[evIdx].Type(), r.Tran.elemType()), rule, "ctor-field@"+ctor.Name()+"[Events]", w.pos(ctor.Pos()),
 			"events parameter -> Events", "the constructor does not store its events parameter into Events")
 	}
 	args := nt.Common().Args
@@ -141,8 +141,10 @@ func c03R1R2(a *A, r *Roles) {
 		fmt.Sprintf("the end label's file is %s, not the current file", fs))
 	os := nextF["Offset"]
 	evParam := ssa.Value(nil)
-	if len(r.Commit.Params) == 1 {
-		evParam = r.Commit.Params[0]
+	for _, p := range r.Commit.Params {
+		if namedIs(p.Type(), replPath, "BinlogEvent") {
+			evParam = p
+		}
 	}
 	okOff := os.Val != nil && evParam != nil && isMethodOf(os.Val, evParam, "NextPosition")
 	a.check(okOff, rule, "label-next@commit[Offset]", w.posOf(nt), "next.Offset = NextPosition() of the commit event, no arithmetic",
@@ -184,15 +186,14 @@ func c03R1R2(a *A, r *Roles) {
 func c03R3(a *A, r *Roles, ar *Arms) {
 	const rule = "C03-R3"
 	n := map[string]int{}
-	for _, ref := range *r.CommitMC.Referrers() {
-		c, ok := ref.(*ssa.Call)
-		if !ok || c.Common().Value != ssa.Value(r.CommitMC) || len(c.Common().Args) != 1 {
+	for _, c := range r.commitCalls() {
+		if len(c.Common().Args) < 1 {
 			continue
 		}
 		lab := ar.label(c.Block())
 		n[lab]++
 		key := fmt.Sprintf("commit-arg@parser[arm=%s#%d]", lab, n[lab])
-		arg := resolve(c.Common().Args[0])
+		arg := resolve(c.Common().Args[len(c.Common().Args)-1])
 		a.check(arg == r.StrippedEv, rule, key, a.W.posOf(c), "commit receives the stripped event of this iteration",
 			fmt.Sprintf("commit is called with %s instead of the checksum-stripped event being dispatched: the end label is read from another event", describe(arg)))
 	}
@@ -216,26 +217,26 @@ func c03R4(a *A, r *Roles, ar *Arms) {
 	want := map[string]int{"Filename": 0, "Offset": 1}
 	seen := map[string]bool{}
 	for _, s := range r.Pos.stores() {
-		if s.Fn != r.Parser || !ar.of[s.Store.Block()]["IsRotate"] {
+		if s.Fn != r.Parser || !ar.of[s.block()]["IsRotate"] {
 			continue
 		}
 		idx, known := want[s.Field]
 		if !known {
-			a.viol(rule, "rotate@parser["+s.Field+"]", w.posOf(s.Store), "rotate arm stores the whole cell or an unknown field")
+			a.viol(rule, "rotate@parser["+s.Field+"]", w.posOf(s.instr()), "rotate arm stores the whole cell or an unknown field")
 			continue
 		}
-		_, org := convsBack(s.Store.Val)
+		_, org := convsBack(s.val())
 		ex, ok := org.(*ssa.Extract)
 		good := ok && ex.Tuple == ssa.Value(rot) && ex.Index == idx
 		seen[s.Field] = seen[s.Field] || good
-		a.check(good, rule, "rotate@parser["+s.Field+"]", w.posOf(s.Store), fmt.Sprintf("pos.%s = Rotate() result %d", s.Field, idx),
+		a.check(good, rule, "rotate@parser["+s.Field+"]", w.posOf(s.instr()), fmt.Sprintf("pos.%s = Rotate() result %d", s.Field, idx),
 			fmt.Sprintf("after a rotation pos.%s is %s, not the rotate event's field: later labels point into the wrong file/offset", s.Field, describe(org)))
 	}
 	// both stores on every non-error path of the arm
 	storeBlk := map[string]map[*ssa.BasicBlock]bool{"Filename": {}, "Offset": {}}
 	for _, s := range r.Pos.stores() {
-		if s.Fn == r.Parser && ar.of[s.Store.Block()]["IsRotate"] && storeBlk[s.Field] != nil {
-			storeBlk[s.Field][s.Store.Block()] = true
+		if s.Fn == r.Parser && ar.of[s.block()]["IsRotate"] && storeBlk[s.Field] != nil {
+			storeBlk[s.Field][s.block()] = true
 		}
 	}
 	for _, p := range ar.Preds {
@@ -322,7 +323,7 @@ func c03R5(a *A, r *Roles) {
 	// label computation and rotate stores: collect conversions on the way
 	for _, s := range r.Pos.stores() {
 		if s.Field == "Offset" {
-			cs, _ := convsBack(s.Store.Val)
+			cs, _ := convsBack(s.val())
 			checkConvs("pos.Offset", cs)
 		}
 	}
